@@ -22,7 +22,14 @@ pub fn gen_cfg() -> GenCfg {
 }
 
 fn configs(thorough: bool) -> Vec<Cfg> {
-    let imports: [Vec<&str>; 3] = [vec![], vec!["core::fmt::Display"], vec!["core::fmt::*", "core::convert::TryFrom", "alloc::string::String"]];
+    // (the last two: several glob imports, and two items whose last path segment is the same)
+    let imports: [Vec<&str>; 5] = [
+        vec![],
+        vec!["core::fmt::Display"],
+        vec!["core::fmt::*", "core::convert::TryFrom", "alloc::string::String"],
+        vec!["core::fmt::*", "alloc::vec::*", "core::convert::*"],
+        vec!["core::fmt::Write", "std::io::Write", "my_crate::module::*"],
+    ];
     // (the last one: derive names that are paths or carry an underscore)
     let anns: [Option<Vec<&str>>; 5] = [
         None,
@@ -36,7 +43,7 @@ fn configs(thorough: bool) -> Vec<Cfg> {
         for (ii, imp) in imports.iter().enumerate() {
             for (ai, ann) in anns.iter().enumerate() {
                 // quick: a Latin-square style sample of the 8 x 3 x 4 lattice (24 configs)
-                if !thorough && (bits + ii + ai) % 4 != 0 && !(ai == 4 && (bits + ii) % 3 == 0) {
+                if !thorough && (bits + ii + ai) % 4 != 0 && !(ai == 4 && (bits + ii) % 3 == 0) && !(ii >= 3 && (bits + ai) % 5 == 0) {
                     continue;
                 }
                 let mut c = Cfg::from_bits(bits);
